@@ -176,6 +176,7 @@ func createCompiledRouteHandler(route *ast.Route, bytecode []byte, wsHub *websoc
 		}
 
 		// Parse and inject request body as 'input' for POST/PUT/PATCH requests
+		bodyIsObject := true
 		if ctx.Request.Method == "POST" || ctx.Request.Method == "PUT" || ctx.Request.Method == "PATCH" {
 			contentType := ctx.Request.Header.Get("Content-Type")
 			shouldParseJSON := contentType == "" ||
@@ -199,14 +200,22 @@ func createCompiledRouteHandler(route *ast.Route, bytecode []byte, wsHub *websoc
 					}
 					vmInstance.SetLocal("input", interfaceToValue(bodyMap))
 				} else {
+					bodyIsObject = false
 					vmInstance.SetLocal("input", vm.NullValue{})
 				}
 				ctx.Request.Body.Close()
 			} else {
+				bodyIsObject = false
 				vmInstance.SetLocal("input", vm.NullValue{})
 			}
 		} else {
+			bodyIsObject = false
 			vmInstance.SetLocal("input", vm.NullValue{})
+		}
+		// As in the interpreter: a declared input type with required fields
+		// cannot be satisfied by an absent, malformed or non-object body.
+		if !bodyIsObject && compiledInputRequiresObject(route) {
+			return sendClientError(ctx, "input validation failed: request body must be a JSON object with the required fields of the declared input type")
 		}
 
 		// Inject request headers as 'headers' object. Keys use Go's
@@ -804,6 +813,18 @@ func validateCompiledInput(route *ast.Route, body map[string]interface{}) error 
 		return fmt.Errorf("input validation failed: %v", err)
 	}
 	return nil
+}
+
+// compiledInputRequiresObject reports whether the route's declared input type
+// has required fields, so that a request without a JSON object body cannot
+// conform to it.
+func compiledInputRequiresObject(route *ast.Route) bool {
+	named, ok := route.InputType.(ast.NamedType)
+	if !ok {
+		return false
+	}
+	typeDef, exists := compiledTypeDefs[named.Name]
+	return exists && interpreter.TypeDefHasRequiredFields(typeDef)
 }
 
 // sendClientError reports a caller mistake with a 4xx, distinct from the
